@@ -104,7 +104,10 @@ def run(ctx):
         case = rep["case"]
         case["_idx"] = rep["idx"]
         os.environ["VERIF_SEED"] = str(rep["seed"])
-        mism, summ, _ = vlib.run_cases(ctx, drv, ["-max", str(rep["max"]), "-e2e", "1"], [case], label="replay")
+        args = ["-max", str(rep["max"]), "-e2e", "1"]
+        if case.get("clock"):
+            args += ["-tick", str(case["clock"]["tickdays"] * 86400 * 1000)]
+        mism, summ, _ = vlib.run_cases(ctx, drv, args, [case], label="replay")
         for m in mism:
             ctx.violation(signature(m), m, what=m.get("what", ""))
         ctx.cov["traces_validated_against_impl"] = 1
